@@ -7,11 +7,7 @@
 (***************************************************************************)
 EXTENDS Sem, SemConv, SemWrap
 
-RECURSIVE PopCount(_, _)
-PopCount(p, k) == IF k = 0 THEN 0 ELSE ZBitAbs(p, k - 1) + PopCount(p, k - 1)          \* ones among the low k bits
-RECURSIVE TrailingZeros(_, _, _)
-TrailingZeros(p, i, w) == IF i >= w THEN w ELSE IF ZBitAbs(p, i) = 1 THEN i ELSE TrailingZeros(p, i + 1, w)
-RotL(p, m, w) == IF m = 0 THEN p ELSE ZUMod2(ZAdd(ZShl(p, m), ZFloorShr(p, w - m)), w)
+\* PopCount, TrailingZeros, RotL: see SemWrap (shared with the Wrapping<F> machine)
 
 \* "sp": every other spelling of the operator (by-reference operands, assigning-by-reference form, the twelve integer
 \* types of a shift amount below the width) denotes the same operation as the by-value form o[1]
